@@ -149,7 +149,7 @@ def run(ctx):
                 "obligations": 1, "discharged": 0, "axioms": [], "theorems": []}
         inv = {k: None for k in ("engine_fields", "reset_fields", "global_state", "mutation_sites", "guard_present",
                                  "has_finally", "order", "check_resets_first", "compile_checks_first",
-                                 "session_write_sites", "nested_writes_namespace")}
+                                 "session_write_sites", "nested_writes_namespace", "call_object_state")}
         inv["global_state"] = []
         inv["session_write_sites"] = []
     r = vlib.rng(ctx.seed, "C11")
@@ -173,7 +173,16 @@ def run(ctx):
     rand = gen_histories(r, pool, n_rand, 3, 9 if ctx.quick else 14)
     # long histories advance the counters far (digit roll-overs at 10 / 100)
     rand += gen_histories(r, pool, 3 if ctx.quick else 15, 25, 40)
-    histories = corpus + rand
+    # std-library constructs are lowered by call-compiler objects that live for the whole
+    # session: compile A k times (k = 1..4), then B, and compare every compile with a fresh one
+    std = [n for n in pool if n.startswith("std_")]
+    family = []
+    for i, a in enumerate(std):
+        partners = [std[(i + 1) % len(std)]] if ctx.quick else [std[(i + j) % len(std)] for j in (1, 2, 5)]
+        for k in ([4] if ctx.quick else [1, 2, 3, 4]):
+            for b_ in partners:
+                family.append([["compile", a]] * k + [["compile", b_]])
+    histories = corpus + family + rand
     res_all, pool_impl, meta = run_impl(ctx, fresh_hist + histories)
     assert pool_impl == pool, (pool_impl, pool)
     fresh_res, res = res_all[:len(fresh_hist)], res_all[len(fresh_hist):]
@@ -288,7 +297,7 @@ def run(ctx):
         if not ctx.violations and not ctx.known_hits:
             ctx.report(("translator:" + tr_err) if tr_err else "proof-broken:" + str(info["failed"]), "proof-broken", str(info["failed"]),
                        {"coq_error": vlib.CoqResult(False, info["log"]).error_excerpt(),
-                        "generated_facts": {k: inv[k] for k in ("guard_present", "has_finally", "order", "check_resets_first", "compile_checks_first", "reset_fields", "engine_fields", "nested_writes_namespace")},
+                        "generated_facts": {k: inv[k] for k in ("guard_present", "has_finally", "order", "check_resets_first", "compile_checks_first", "reset_fields", "engine_fields", "nested_writes_namespace", "call_object_state")},
                         "unmodelled_write_sites": sorted(set(inv["session_write_sites"]) ^ set(MODELLED_AND_CONSTANT(r'"((?:internals|guppylang)/[^"]+(?:\(\)|=))"'))) if inv["session_write_sites"] else None,
                         "unmodelled_state": sorted(set(inv["global_state"]) ^ set(MODELLED_AND_CONSTANT())),
                         "searched": {"histories": len(histories), "operations": n_ops}},
@@ -306,7 +315,7 @@ def run(ctx):
          "canonicalisation in impl_hist.canon_hugr: node-by-node dump of the Hugr module with `base.N` function names renumbered by first occurrence"],
         evaluations=n_ops, distinct_nontrivial=len({json.dumps(h) for h in histories if len(h) > 1}),
         rule="evaluations = operations replayed inside multi-operation histories and compared with the same operation in a fresh interpreter; non-trivial = distinct histories with at least two operations",
-        histories=len(histories), corpus_histories=len(corpus), fresh_references=len(fresh),
+        histories=len(histories), corpus_histories=len(corpus), std_family_histories=len(family), fresh_references=len(fresh),
         operations_differing_from_fresh=n_diff,
         operation_outcomes={f"{k[0]}/{k[1]}": v for k, v in sorted(kinds.items())},
         history_length_histogram={str(k): v for k, v in sorted(lens.items())},
@@ -314,7 +323,7 @@ def run(ctx):
         successful_ops_with_checked_set_compared=cone_checked, model_evaluated=model_ok,
         inventory={"engine_fields": inv["engine_fields"], "reset_fields": inv["reset_fields"],
                    "global_state_entries": len(inv["global_state"] or []), "mutation_sites": inv["mutation_sites"],
-                   "session_write_sites": len(inv["session_write_sites"]), "nested_writes_namespace": inv["nested_writes_namespace"],
+                   "session_write_sites": len(inv["session_write_sites"]), "call_object_state": inv.get("call_object_state"), "nested_writes_namespace": inv["nested_writes_namespace"],
                    "translator_error": tr_err,
                    "guard_present": inv["guard_present"], "set_tracing_state_has_finally": inv["has_finally"],
                    "compare_var_order": inv["order"]},
